@@ -469,8 +469,8 @@ class Prop(Check):
         "Reg.C26_glob_self",
     ]
     DRIVER = "Drivers/Reg.lean"
-    QUICK_CASES = 1500
-    THOROUGH_CASES = 30000
+    QUICK_CASES = 1200
+    THOROUGH_CASES = 10000  # random + malformed histories; the state exploration is complete on top of it
     RULE = ("histories of registration-API calls over case variants of a few names, patterns and file names, from the "
             "import-time state: (i) every call of the universe applied in every distinct abstract registry state reached "
             "breadth-first (complete to the depth stated in `exhaustive`), each followed by a fixed probe suite; (ii) "
@@ -496,10 +496,12 @@ class Prop(Check):
     # ---------------------------------------------------------------- gen
     def gen(self, rng, n, tier):
         quick = tier == "quick"
-        budget_bfs = int(n * 0.55)
+        # quick: 55 % of the cases explore states; thorough: every call of the universe in every
+        # distinct abstract state (the exploration closes: no new state after depth 6), n more on top
+        budget_bfs = int(n * 0.55) if quick else 10 ** 9
         out = []
         # (i) state exploration
-        depth_cap, state_cap = (2, 400) if quick else (8, 6000)
+        depth_cap, state_cap = (2, 400) if quick else (12, 20000)
         self._exhaustive = {}
         for kind, universe, probes, eps, geps, share in (
             ("lang", LANG_OPS, LANG_PROBES, EP_SMALL, [], 0.75),
@@ -528,6 +530,7 @@ class Prop(Check):
                 "states_per_depth": [len(l) for l in levels],
                 "universe": len(universe),
                 "complete_to_state_depth": complete_depth,
+                "closed": bool(levels) and len(levels[-1]) == 0 and complete_depth == len(levels) - 1,
                 "cases": made,
             }
         # (iii) malformed stream (~8 %)
@@ -535,7 +538,8 @@ class Prop(Check):
         for _ in range(nmal):
             out.append(self.malformed(rng.fork("mal")))
         # (ii) random histories
-        while len(out) < n:
+        total = n if quick else len(out) + n
+        while len(out) < total:
             out.append(self.random_history(rng.fork("hist")))
         return out
 
@@ -821,6 +825,10 @@ class Prop(Check):
         if not self.ascii_only(case, obs):
             return None
         eps, geps = self.env_of(case, obs)
+        if not Ref(eps, geps).ok_env:
+            # clashing entry points: outside the property (Env.Ok fails); when exactly the load error
+            # surfaces is not property-relevant, so these histories are run (no crash) but not compared
+            return None
         return {"op": "run", "eps": eps, "geps": geps, "ops": case["ops"]}
 
     @staticmethod
